@@ -126,7 +126,7 @@ func VerifC13CollectFee() {
 	}
 
 	// ---- reference: sequential ledger over mathematical integers, branch-free
-	ac := new(big.Int).SetUint64(askCount)
+	ac := big.NewInt(int64(askCount)) // the same integer the code multiplies by (ask_count < 2^32)
 	exp := pre
 	var cum [2]*big.Int
 	cum[0], cum[1] = big.NewInt(0), big.NewInt(0)
